@@ -77,8 +77,10 @@ def fewer_parts_no_ellipsis(case):
 
 
 def ellipsis_for_zero_axes(case):
+    """a trailing ellipsis that stands for zero axes, in the packed / variadic encodings (the list encodings are right)"""
     parts = case["args"]["parts"]
-    return case.get("op") in ("slice", "slice_index") and n_ell(parts) == 1 and len(parts) - 1 == len(case["shapes"][0])
+    return (case.get("op") in ("slice", "slice_index") and n_ell(parts) == 1 and len(parts) - 1 == len(case["shapes"][0])
+            and parts[-1]["k"] == "e" and case["args"].get("enc") in ("packed", "packed2", "variadic"))
 
 
 PREDS = dict(slice_fewer_parts_no_ellipsis=fewer_parts_no_ellipsis, slice_ellipsis_for_zero_axes=ellipsis_for_zero_axes)
